@@ -1376,6 +1376,58 @@ impl DcpsDomainParticipant {
                 .transport_writer
                 .delete_matched_reader(Guid::from(<[u8; 16]>::from(subscription_handle)));
 
+            if let Some(topic) = self
+                .domain_participant
+                .locally_created_topic_list
+                .iter()
+                .find(|x| x.topic_name == data_writer.topic_name)
+            {
+                let the_participant = DomainParticipantAsync::new(
+                    self.dcps_sender,
+                    self.domain_participant.domain_id,
+                    self.domain_participant.instance_handle,
+                );
+                let the_publisher =
+                    PublisherAsync::new(publisher.instance_handle, the_participant.clone());
+                let the_topic = TopicAsync::new(
+                    topic.instance_handle,
+                    topic.type_name.clone(),
+                    data_writer.topic_name.clone(),
+                    the_participant,
+                );
+                let the_writer =
+                    DataWriterAsync::new(data_writer.instance_handle, the_publisher, the_topic);
+                if data_writer
+                    .listener_mask
+                    .is_enabled(&StatusKind::PublicationMatched)
+                {
+                    let status = data_writer.publication_matched_status.get();
+                    if let Some(l) = &data_writer.listener_sender {
+                        l.send(ListenerMail::PublicationMatched { the_writer, status })
+                            .ok();
+                    }
+                } else if publisher
+                    .listener_mask
+                    .is_enabled(&StatusKind::PublicationMatched)
+                {
+                    let status = data_writer.publication_matched_status.get();
+                    if let Some(l) = &publisher.listener_sender {
+                        l.send(ListenerMail::PublicationMatched { the_writer, status })
+                            .ok();
+                    }
+                } else if self
+                    .domain_participant
+                    .listener_mask
+                    .is_enabled(&StatusKind::PublicationMatched)
+                {
+                    let status = data_writer.publication_matched_status.get();
+                    if let Some(l) = &self.domain_participant.listener_sender {
+                        l.send(ListenerMail::PublicationMatched { the_writer, status })
+                            .ok();
+                    }
+                }
+            }
+
             data_writer
                 .status_condition
                 .add_communication_state(StatusKind::PublicationMatched);
@@ -1914,6 +1966,8 @@ impl DcpsDomainParticipant {
         else {
             return;
         };
+        let subscriber_listener_mask = subscriber.listener_mask;
+        let subscriber_listener_sender = subscriber.listener_sender.clone();
         let Some(data_reader) = subscriber
             .data_reader_list
             .iter_mut()
@@ -1927,6 +1981,59 @@ impl DcpsDomainParticipant {
             .any(|x| &x.key().value == publication_handle.as_ref())
         {
             data_reader.remove_matched_publication(&publication_handle);
+
+            let related_topic_name = self
+                .domain_participant
+                .content_filtered_topic_list
+                .iter()
+                .find(|t| t.topic_name == data_reader.topic_name)
+                .map(|t| t.related_topic_name.clone())
+                .unwrap_or_else(|| data_reader.topic_name.clone());
+            if let Some(topic) = self
+                .domain_participant
+                .locally_created_topic_list
+                .iter()
+                .find(|t| t.topic_name == related_topic_name)
+            {
+                let the_participant = DomainParticipantAsync::new(
+                    self.dcps_sender,
+                    self.domain_participant.domain_id,
+                    self.domain_participant.instance_handle,
+                );
+                let the_subscriber = SubscriberAsync::new(subscriber_handle, the_participant);
+                let the_reader = DataReaderAsync::new(
+                    data_reader.instance_handle,
+                    the_subscriber,
+                    data_reader.topic_name.clone(),
+                    topic.type_name.clone(),
+                );
+                if data_reader
+                    .listener_mask
+                    .is_enabled(&StatusKind::SubscriptionMatched)
+                {
+                    let status = data_reader.get_subscription_matched_status();
+                    if let Some(l) = &data_reader.listener_sender {
+                        l.send(ListenerMail::SubscriptionMatched { the_reader, status })
+                            .ok();
+                    }
+                } else if subscriber_listener_mask.is_enabled(&StatusKind::SubscriptionMatched) {
+                    let status = data_reader.get_subscription_matched_status();
+                    if let Some(l) = &subscriber_listener_sender {
+                        l.send(ListenerMail::SubscriptionMatched { the_reader, status })
+                            .ok();
+                    }
+                } else if self
+                    .domain_participant
+                    .listener_mask
+                    .is_enabled(&StatusKind::SubscriptionMatched)
+                {
+                    let status = data_reader.get_subscription_matched_status();
+                    if let Some(l) = &self.domain_participant.listener_sender {
+                        l.send(ListenerMail::SubscriptionMatched { the_reader, status })
+                            .ok();
+                    }
+                }
+            }
             data_reader
                 .transport_reader
                 .delete_matched_writer(Guid::from(<[u8; 16]>::from(publication_handle)));
